@@ -99,13 +99,16 @@ def _gen_once(rng, kind, tier):
             side = max(2 * max(R for R, _ in drops) / hm + 2 * margin + 8 * wmax / hm,
                        (need * 1.3) / max(1, k ** (1 - 1 / dim)) if k > 1 else 0)
             n = [int(side + rng.integers(2, 10)) for _ in range(dim)]
-            if rng.random() < 0.4:  # elongated boxes: very different cell counts per axis
+            straddle = bool(rng.random() < 0.15)  # elongated periodic box with a droplet sitting on a boundary
+            if straddle or rng.random() < 0.4:  # elongated boxes: very different cell counts per axis
                 ax = int(rng.integers(dim))
-                n[ax] = int(n[ax] * rng.uniform(1.5, 3.0 if dim == 2 else 1.8))
+                n[ax] = int(n[ax] * rng.uniform(2.0 if (straddle and dim == 2) else 1.5, 3.0 if dim == 2 else 1.8))
         cap = {1: 400, 2: 140, 3: 44}[dim]
         if max(n) > cap:
             return None
         periodic = [bool(rng.integers(0, 2)) for _ in range(dim)]
+        if dim > 1 and straddle:
+            periodic = [True] * dim
         lo = np.round(rng.uniform(-5, 5, dim), 3)
         spec = {"family": "cart", "bounds": [[float(lo[i]), float(lo[i] + h[i] * n[i])] for i in range(dim)],
                 "shape": n, "periodic": periodic}
@@ -123,6 +126,8 @@ def _gen_once(rng, kind, tier):
                             good = False
                             break
                         c[ax] = rng.uniform(lo[ax] - L[ax], lo[ax] + 2 * L[ax])
+                        if dim > 1 and straddle and not placed and rng.random() < 0.6:
+                            c[ax] = lo[ax] + float(rng.integers(0, 2)) * L[ax] + rng.uniform(-0.5, 0.5) * R  # on the boundary
                     else:
                         a0, a1 = lo[ax] + R + 4 * w, lo[ax] + L[ax] - R - 4 * w
                         if a0 >= a1:
